@@ -22,6 +22,7 @@ import (
 //   tooladdr base addr                                     ↦ the addresses written to addr2line / llvm-symbolizer (code, data)
 //   a2lnm    base syms hasNM addr stack (c13a2l.go)         ↦ Func of the frames addr2Liner.addrInfo returns
 //   session  files events (c13sess.go)                      ↦ one observable per event of a history on ONE Binutils
+//   conv     kind base table syms hasNM addrs (c13conv.go)  ↦ answers of ONE addr2Liner / llvmSymbolizer over one simulated pipe
 //   maps     elf mapping bias (thorough, real processes)   ↦ [] (specification-side check only)
 // The loader-driven generators (c13LoaderCases) construct the runtime mapping from the segment
 // layout and a page-aligned bias exactly as the kernel does and ship the bias, so that the Coq
@@ -820,6 +821,7 @@ func runC13(c *Ctx) {
 	c13ToolCases(c, c.Budget(150, 3000))
 	c13A2LNMCases(c, c.Budget(500, 10000))
 	c13SessionCases(c, c.Budget(400, 8000))
+	c13ConvCases(c, c.Budget(500, 10000))
 	if c.Tier == "thorough" {
 		c13RealBinaries(c)
 	}
